@@ -10,9 +10,13 @@ exercises the transition first-chunk -> loop-chunk -> loop-chunk -> last-chunk):
       end <= n_samples, start < n_samples; get_excerpts returns the whole data when it is shorter than requested;
       data_chunk slices with the kept bounds unless the overlap is requested
   P1  reader.iter_chunks yields consecutive pairs of chunk_bounds in order
+  P2  compressed reader's batch iterator (cache on and off): the first interval starts at bound 0; the end bound of batch b
+      equals the start bound of batch b+1 (inductive step over a symbolic batch index and batch size, max/min resolved
+      under batch_size * (b + 1) < n_chunks); start <= end; the interval yielded after the loop is the single chunk that
+      follows the last batch and ends at bound n_chunks (given batch_size * L < n_chunks <= batch_size * (L + 1))
   S3  _get_chunk_bounds: after every part the last bound equals the running total, bounds start at 0 and the
       regular grid inside a part has step chunk_size
-Not decided: the compressed reader's batch iterator; gaps for particular residues; strictness of increase.
+Not decided: mtscomp's own chunk table and decoder; gaps for particular residues; strictness of increase.
 """
 import ast
 
@@ -28,7 +32,7 @@ FLOOR = 8
 EXPLANATION = ('sym engine: the generators chunk_bounds / excerpts are walked path by path (loop unrolled 0..2 times, every outcome '
                'of every comparison), each yielded tuple is a symbolic term over the parameters; chain equalities between consecutive '
                'yields and bounds are decided by equality / sign of linear normal forms (max/min/floor-division as interpreted atoms)')
-TRUSTED = ['python ast', 'normal-form rewriting of vlib/sym.py', 'preconditions chunk_size > 0, 0 <= overlap, excerpt_size > 0']
+TRUSTED = ['python ast', 'normal-form rewriting of vlib/sym.py', 'preconditions chunk_size > 0, 0 <= overlap, excerpt_size > 0', 'mtscomp: n_batches = ceil(n_chunks / batch_size), batch_size >= 1, n_chunks >= 1']
 ASSUMPTIONS = ['chunk_size > 0 and 0 <= overlap < chunk_size', 'n_excerpts >= 2, excerpt_size > 0']
 
 
@@ -266,6 +270,116 @@ def p1_iter_chunks(ctx):
               'iter_chunks does not yield the consecutive pairs of chunk_bounds in order')
 
 
+class BatchInterp(SymInterp):
+    """Compressed reader: `for batch in range(reader.n_batches)` is walked over the given symbolic batch indices."""
+    elems = ()
+
+    def for_elements(self, s, itv, st):
+        if is_t(itv) and itv[1] == 'call' and itv[2] == 'range' and 'n_batches' in show(itv):
+            return [list(self.elems)]
+        return super().for_elements(s, itv, st)
+
+
+def p2_compressed_iter(ctx):
+    """MtscompEphysReader.iter_chunks: the yielded intervals (chunk_bounds[i], chunk_bounds[j]) start at bound 0, chain
+    (j of one == i of the next, decided as an inductive step over two consecutive symbolic batches), are ordered (i <= j)
+    and the interval yielded after the loop ends at bound n_chunks. Trusted: mtscomp's n_batches = ceil(n_chunks / batch_size)."""
+    repo = ctx.repo
+    cls = repo.cls(TR, 'MtscompEphysReader')
+    fi = repo.lookup_method(cls, 'iter_chunks')
+    if fi is None or fi.cls is not cls:
+        ctx.undecided('C16.P2', TR + ':MtscompEphysReader', 'the compressed reader has no chunk iterator of its own (the base iterator is decided by P1)')
+        return
+    me = T('self')
+    rd = T('attr', me, 'reader')
+    bs_t, nc_t, nb_t, cb_t = (T('attr', rd, a) for a in ('batch_size', 'n_chunks', 'n_batches', 'chunk_bounds'))
+    bs, nc, nb = Lin.atom(('batch_size',)), Lin.atom(('n_chunks',)), Lin.atom(('n_batches',))
+    b_t, L_t = T('b'), T('L')
+    b, L = Lin.atom(('b',)), Lin.atom(('L',))
+    binds = {bs_t: bs, nc_t: nc, nb_t: nb, b_t: b, L_t: L}
+    from vlib.sym import mul
+    probs, und = {}, {}
+    stats = {'paths': 0, 'yields': 0}
+
+    def intervals(I, elems, cache):
+        I.elems = elems
+        outs = I.run(fi, env={fi.params[0]: me, **({fi.params[1]: C(cache)} if len(fi.params) > 1 else {})})
+        res = []
+        for kind, val, st in outs:
+            if kind != 'return':
+                continue
+            stats['paths'] += 1
+            ys = []
+            for y in yields_of(st):
+                if is_t(y) and y[1] == 'tuple' and len(y) == 4 and all(is_t(x) and x[1] == 'index' and x[2] == cb_t for x in y[2:]):
+                    ys.append((I.nf(y[2][3]), I.nf(y[3][3])))
+                else:
+                    ys.append(None)
+            stats['yields'] += len(ys)
+            res.append(ys)
+        return res
+
+    for cache in (False, True):
+        # (1) first batch: starts at bound 0
+        I = BatchInterp(repo, unroll=1, inline_depth=0, binds=binds, pos=[bs, nc])
+        for ys in intervals(I, [C(0)], cache):
+            if not ys or ys[0] is None:
+                und.setdefault('first yielded interval is not a pair of chunk bounds', 1)
+            elif not I.same(ys[0][0], Lin.const(0)):
+                probs.setdefault('the first interval starts at chunk bound %s, not at bound 0: the beginning of the recording is skipped' % ys[0][0], 1)
+        # (2) inductive step over batches b, b+1 (batch b+1 exists: batch_size * (b + 1) < n_chunks)
+        I = BatchInterp(repo, unroll=1, inline_depth=0, binds=binds, pos=[bs, nc - mul(bs, b) - bs], nonneg=[b])
+        got = intervals(I, [b_t, T('Add', b_t, C(1))], cache)
+        if not got:
+            und.setdefault('no normal path through two consecutive batches', 1)
+        for ys in got:
+            if len(ys) < 3 or any(y is None for y in ys):
+                und.setdefault('intervals of two consecutive batches not recognised (%d yields)' % len(ys), 1)
+                continue
+            (i0, j0), (i1, j1), (i2, j2) = ys[0], ys[1], ys[-1]
+            if not I.same(j0, i1):
+                d = I.resolve(i1 - j0)
+                if d.is_const() or I.interpreted(d):
+                    probs.setdefault('batch b yields up to chunk bound %s but batch b+1 starts at bound %s: the chunks between them are %s' %
+                                     (I.resolve(j0), I.resolve(i1), 'skipped' if I.sign(d) == '+' else 'skipped or yielded twice'), 1)
+                else:
+                    und.setdefault('end of batch b (%s) and start of batch b+1 (%s) not comparable' % (j0, i1), 1)
+            for nm, (i, j) in (('b', (i0, j0)), ('b+1', (i1, j1))):
+                if not I.ge0(j - i) and not I.ge0(I.resolve(j) - I.resolve(i)):
+                    (probs if I.sign(I.resolve(j) - I.resolve(i)) == '-' else und).setdefault('interval of batch %s: end bound %s before start bound %s' % (nm, j, i), 1)
+            if not I.same(i2, j1):
+                probs.setdefault('the interval yielded after the loop starts at bound %s, not where the last batch ended (%s)' % (i2, j1), 1)
+            if not I.same(j2, i2 + Lin.const(1)):
+                probs.setdefault('the interval yielded after the loop is (%s, %s): not one chunk' % (i2, j2), 1)
+        # (3) last batch L: batch_size * L < n_chunks <= batch_size * (L + 1); the final interval ends at bound n_chunks
+        I = BatchInterp(repo, unroll=1, inline_depth=0, binds=binds, pos=[bs, nc - mul(bs, L)], nonneg=[L, mul(bs, L) + bs - nc])
+        got = intervals(I, [L_t], cache)
+        if not got:
+            und.setdefault('no normal path through the last batch', 1)
+        for ys in got:
+            if len(ys) < 1 or any(y is None for y in ys):
+                und.setdefault('intervals of the last batch not recognised', 1)
+                continue
+            i2, j2 = ys[-1]
+            if not I.same(j2, nc):
+                d = I.resolve(j2 - nc)
+                if d.is_const() or I.interpreted(d):
+                    probs.setdefault('the last interval ends at chunk bound %s, not at bound n_chunks: the end of the recording is not yielded (or exceeded)' % I.resolve(j2), 1)
+                else:
+                    und.setdefault('end of the last interval (%s) not comparable with n_chunks' % j2, 1)
+    ctx.analysed['paths'] += stats['paths']
+    if probs:
+        for msg in list(probs)[:4]:
+            ctx.violated('C16.P2', fi, msg[:150], msg)
+    elif und:
+        for msg in list(und)[:3]:
+            ctx.undecided('C16.P2', fi, msg)
+    else:
+        ctx.holds('C16.P2', fi, 'compressed iter_chunks (cache on and off): first interval starts at bound 0; end bound of batch b == start bound of '
+                  'batch b+1 (inductive step, symbolic batch index and batch size); start <= end; the interval after the loop is the one chunk '
+                  'following the last batch and ends at bound n_chunks (%d paths, %d yielded intervals)' % (stats['paths'], stats['yields']), 'iter_chunks')
+
+
 class GcbInterp(SymInterp):
     """_get_chunk_bounds: the growing list is modelled as ('list', ..., star(unknown prefix), items...)."""
 
@@ -376,16 +490,18 @@ def s3_get_chunk_bounds(ctx):
 
 
 def run(ctx):
-    s1_chunk_bounds(ctx)
-    s2_excerpts(ctx)
-    p1_iter_chunks(ctx)
-    s3_get_chunk_bounds(ctx)
+    ctx.part('C16.S1', s1_chunk_bounds)
+    ctx.part('C16.S2', s2_excerpts)
+    ctx.part('C16.P1', p1_iter_chunks)
+    ctx.part('C16.P2', p2_compressed_iter)
+    ctx.part('C16.S3', s3_get_chunk_bounds)
 
 
 LEVEL_TEXT = ('Static path walk of the chunking generators with linear normal forms: yield-chain equalities of chunk_bounds '
               '(starts at 0, each kept part starts where the previous ended, no gaps, length <= chunk_size, tail kept up to n_samples), '
               'bounds / disjointness / count of excerpts, whole-data shortcut of get_excerpts, kept-bounds slicing of data_chunk, '
-              'consecutive-pair iteration of reader chunk bounds, and the last-bound == running-total invariant of _get_chunk_bounds.')
+              'consecutive-pair iteration of reader chunk bounds, the chaining of the compressed reader\'s batch intervals (inductive step over a symbolic batch), '
+              'and the last-bound == running-total invariant of _get_chunk_bounds.')
 LEVEL_NOTE = ('Trusted: normal-form rewriting (vlib/sym.py), loop unrolling 0..2, preconditions chunk_size > 0, overlap >= 0. '
-              'Not decided: compressed reader batching, numeric residues, strict monotonicity at value level.')
+              'mtscomp n_batches = ceil(n_chunks / batch_size). Not decided: the mtscomp decoder and its chunk table, numeric residues, strict monotonicity at value level.')
 TECHNIQUE = 'static analysis: path walk of generators with symbolic normal forms (equalities and syntactic sign facts, no solver)'
